@@ -1080,6 +1080,55 @@ theorem C05_refines2_enqueue (db db' : Db) (subs : List Sub) (m : Msg) (now : Ti
       rw [this] at hc; cases hc)
   simpa using this
 
+/-- **publishing one message satisfies the obligation of `C05_ordered_ties`** — with no clock
+    assumption: `now` may be the very instant rows already in the table are stamped with -/
+theorem C05_refines2_publish_one (db db' : Db) (t : Topic) (now : Time) (pm : PubMsg) (w : List Id)
+    (h : publishOne db t now pm = .ok (db', w))
+    (hfk : ∀ d ∈ db.dels, (db.msgById d.msgId).isSome = true)
+    (huniq : ∀ a ∈ db.subs, ∀ b ∈ db.subs, a.live = true → b.live = true → a.id = b.id → a = b)
+    (hids : (db.dels.map (·.id)).Nodup)
+    (hpast : ∀ d ∈ db.dels, d.publishedAt ≤ now) :
+    Ord2.stepOk2 db now db' now = true := by
+  obtain ⟨m, db1, hmid, hdb1, hfreshm, h⟩ := publishOne_shape h
+  have hmsg : db1.msgById m.id = some m := by
+    rw [hdb1]
+    unfold Db.msgById
+    simp only [List.find?_append]
+    have hnone : db.msgs.find? (fun x => x.id == m.id) = none := by
+      apply List.find?_eq_none.mpr
+      intro x hx hxe
+      have : db.allIds.contains pm.id = true := by
+        apply List.elem_eq_true_of_mem
+        unfold Db.allIds
+        simp only [List.mem_append, List.mem_map]
+        left; left; right
+        exact ⟨x, hx, by rw [← hmid]; simpa using hxe⟩
+      rw [this] at hfreshm; cases hfreshm
+    rw [hnone]
+    simp
+  have hsubs1 : db1.subs = db.subs := by rw [hdb1]
+  have hdels1 : db1.dels = db.dels := by rw [hdb1]
+  obtain ⟨rows, hrows, hdb', _⟩ := deliverAll_shape h
+  obtain ⟨hn2, _, hn1, hfresh⟩ := deliverAll_checks h
+  have happ := appendOk2_mkRows db1 db' (db1.liveSubsOf t.id) m now hmsg
+    (fun s hs => liveSubsOf_mem hs) (by rw [hsubs1]; exact huniq) (by rw [hdels1]; exact hids) (by rw [hdels1]; exact hpast)
+    (by rw [hdb']) (by rw [hdb']) pm.fwds rows [] hrows
+    (fun p hp => by cases hp) ((nodupIds_iff _).mp hn1) ((nodupIds_iff _).mp hn2)
+    (fun f hf e he heq => by
+      have hc := hfresh f hf
+      have : db1.allIds.contains f.newId = true := by
+        apply List.elem_eq_true_of_mem
+        unfold Db.allIds
+        simp only [List.mem_append, List.mem_map]
+        left; right
+        exact ⟨e, he, heq⟩
+      rw [this] at hc; cases hc)
+  rw [List.append_nil, hdels1] at happ
+  refine stepOk2_of_append db now db' now rows (Int.le_refl _) (by rw [hdb', hdels1]) (by rw [hdb', hsubs1]) ?_ happ
+  intro d hd
+  rw [hdb', hdb1]
+  exact keyOf_append_of_some (hfk d hd) _
+
 end enqueue2
 
 /-! ### the jobs that delete delivery rows refine the shrinking step -/
@@ -2908,6 +2957,361 @@ theorem C05_sweep_keeps_order {db : Db} {now : Time} {mx : Nat} {victims : List 
           cases s.maxAttempts <;> cases s.dlTopicId <;> simp
           intro h1 h2
           omega
+
+/-! ### a pull — dead-lettering included — keeps the ordering invariant -/
+
+/-- a step that rewrites delivery rows in place and subscriptions in fields the obligation does not read -/
+theorem stepOk2_of_maps (db : Db) (now : Time) (db' : Db) (now' : Time) (g : Delivery → Delivery) (gs : Sub → Sub)
+    (hnow : now ≤ now') (hd : db'.dels = db.dels.map g) (hs : db'.subs = db.subs.map gs)
+    (hgs : ∀ s ∈ db.subs, (gs s).id = s.id ∧ (gs s).live = s.live ∧ (gs s).ordered = s.ordered ∧ (gs s).messageTtl = s.messageTtl)
+    (hg : ∀ d ∈ db.dels, rowUpdOk db now db' d (g d) = true) :
+    stepOk2 db now db' now' = true := by
+  unfold stepOk2
+  simp only [Bool.and_eq_true, decide_eq_true_eq, Bool.or_eq_true]
+  refine ⟨⟨hnow, subsOk_of_map db db' gs hs hgs⟩, Or.inl ?_⟩
+  unfold growOk2
+  have hlen : db.dels.length = (db.dels.map g).length := by simp
+  simp only [hd, Bool.and_eq_true]
+  rw [hlen, List.take_length, List.drop_length]
+  refine ⟨?_, rfl⟩
+  have : ∀ l : List Delivery, (∀ d ∈ l, rowUpdOk db now db' d (g d) = true) → rowsUpdOk db now db' l (l.map g) = true := by
+    intro l
+    induction l with
+    | nil => intro _; rfl
+    | cons d r ih =>
+      intro h
+      simp only [List.map_cons, rowsUpdOk, Bool.and_eq_true]
+      exact ⟨h d List.mem_cons_self, ih (fun x hx => h x (List.mem_cons_of_mem _ hx))⟩
+  exact this db.dels hg
+
+/-- a predecessor that is done stays done along row-monotone table changes -/
+theorem predDone_mono {db db' : Db} (h : DelsMono db.dels db'.dels) (now : Time) (d : Delivery)
+    (hp : db.predDone now d = true) : db'.predDone now d = true := by
+  unfold Db.predDone at hp ⊢
+  cases hnb : d.notBefore with
+  | none => rfl
+  | some p =>
+    rw [hnb] at hp
+    simp only at hp ⊢
+    cases hq : db.delById p with
+    | none => rw [hq] at hp; cases hp
+    | some q =>
+      rw [hq] at hp
+      obtain ⟨q', hq', r⟩ := h p q hq
+      rw [Db.delById_eq, hq']
+      simp only [Bool.or_eq_true, decide_eq_true_eq] at hp ⊢
+      rcases hp with hp | hp
+      · exact Or.inl (r.completed hp)
+      · right; rw [r.expires]; exact hp
+
+theorem dlTarget_attempts {s : Sub} {d : Delivery} {t : Id} (h : s.dlTarget d = some t) : 0 < d.attempts := by
+  unfold Sub.dlTarget at h
+  split at h
+  · split at h
+    · rename_i hc
+      have := hc.1; have := hc.2
+      omega
+    · cases h
+  · cases h
+
+/-- the loop of a pull keeps the ordering invariant: the candidates whose attempts are used up are
+    dead-lettered one after the other, each still unchanged in the table when its turn comes -/
+theorem pullLoop_inv2 (s : Sub) (now : Time) (maxBytes : Nat) (strict : Bool) (obs : PullObs) :
+    ∀ (cands : List Delivery) (i : Nat) (acc acc' : PullAcc),
+      pullLoop s now maxBytes strict obs i cands acc = .ok acc' →
+      Inv2 acc.db now →
+      (∀ a ∈ acc.db.subs, ∀ b ∈ acc.db.subs, a.live = true → b.live = true → a.id = b.id → a = b) →
+      (cands.map (·.id)).Nodup →
+      (∀ c ∈ cands, findDel acc.db.dels c.id = some c) →
+      Inv2 acc'.db now := by
+  intro cands
+  induction cands with
+  | nil =>
+    intro i acc acc' h hinv _ _ _
+    unfold pullLoop at h
+    injection h with h; subst h; exact hinv
+  | cons d r ih =>
+    intro i acc acc' h hinv huniq hnd hc
+    simp only [List.map_cons, List.nodup_cons] at hnd
+    have hcr : ∀ c ∈ r, findDel acc.db.dels c.id = some c := fun c hcm => hc c (List.mem_cons_of_mem _ hcm)
+    unfold pullLoop at h
+    split at h
+    · cases h
+    · split at h
+      · exact ih _ _ _ h hinv huniq hnd.2 hcr
+      · split at h
+        · rename_i dlt hdlt
+          split at h
+          · cases h
+          · rename_i db' w hdl
+            have hdm : d ∈ acc.db.dels := List.mem_of_find?_eq_some (hc d (List.mem_cons_self ..))
+            have hinv1 := C05_deadLetter_keeps_order hdl hinv huniq hdm (dlTarget_attempts hdlt)
+            have hsame := deadLetter_other hdl
+            refine ih _ _ _ h hinv1 (by rw [hsame.2.1]; exact huniq) hnd.2 ?_
+            intro c hcm
+            refine deadLetter_keeps hdl ?_ (hcr c hcm)
+            intro heq
+            exact hnd.1 (List.mem_map.mpr ⟨c, hcm, heq.symm⟩)
+        · split at h
+          · cases h
+          · exact ih _ _ _ h hinv huniq hnd.2 hcr
+
+/-- `pull_ok_shape` with the fact that the candidates are distinct rows -/
+theorem pull_ok_shape2 {db : Db} {now : Time} {sn : String} {mx mb : Nat} {strict : Bool} {wait : Int} {obs : PullObs}
+    {o : TxOut PullRes} {now' : Time} (h : pull db now sn mx mb strict wait obs = .ok (o, now')) :
+    ∃ s, db.liveSubByName sn = some s ∧
+      ((now' = now + wait ∧ o.db = refreshExpiry (refreshExpiry db s now) s (now + wait)) ∨
+       (now' = now ∧ ∃ cands acc,
+          (cands.map (·.id)).Nodup ∧
+          (∀ c ∈ cands, c ∈ db.dels ∧ (refreshExpiry db s now).eligible s now c = true) ∧
+          pullLoop s now mb strict obs 0 cands
+            { db := refreshExpiry (refreshExpiry db s now) s now, bytes := 0, delivered := [], numDL := 0, wakes := [] } = .ok acc ∧
+          o.db = { acc.db with dels := applyLeases now acc.delivered acc.db.dels })) := by
+  unfold pull at h
+  split at h
+  · cases h
+  · rename_i s hs
+    refine ⟨s, hs, ?_⟩
+    simp only at h
+    split at h
+    · cases h
+    · rename_i cands hc
+      split at h
+      · cases h
+      · rename_i hok
+        split at h
+        · injection h with h
+          injection h with h1 h2
+          left
+          exact ⟨h2.symm, by rw [← h1]⟩
+        · right
+          split at h
+          · cases h
+          · rename_i o' ho
+            injection h with h
+            injection h with h1 h2
+            subst h1
+            refine ⟨h2.symm, cands, ?_⟩
+            unfold pullDeliver at ho
+            split at ho
+            · cases ho
+            · rename_i acc hacc
+              injection ho with ho
+              have hok' : candsOk ((refreshExpiry db s now).eligible s now)
+                  ((refreshExpiry db s now).dels.filter ((refreshExpiry db s now).eligible s now)) cands mx = true := by
+                simpa using hok
+              unfold candsOk at hok'
+              simp only [Bool.and_eq_true] at hok'
+              refine ⟨acc, (nodupIds_iff _).mp hok'.1.1.1.2, ?_, hacc, by rw [← ho]⟩
+              intro c hcm
+              have hel := List.all_eq_true.mp hok'.1.1.2 c hcm
+              obtain ⟨i, hi⟩ := lookupAll_mem _ _ _ hc c hcm
+              have hm : c ∈ (refreshExpiry db s now).dels := by
+                unfold Db.delById at hi
+                exact List.mem_of_find?_eq_some hi
+              exact ⟨hm, hel⟩
+
+/-- **a pull keeps the ordering invariant** — on any topology, dead-letter policies included, with no
+    clock assumption: the expiry refresh, the dead-lettering of the candidates whose attempts are used
+    up (each a forward and a retirement, `C05_deadLetter_keeps_order`), the leases of the others (each
+    eligible: on an ordered subscription its predecessor is done, and stays done while the loop runs) -/
+theorem C05_pull_keeps_order {db : Db} {now : Time} {sn : String} {mx mb : Nat} {strict : Bool} {wait : Int}
+    {obs : PullObs} {o : TxOut PullRes} {now' : Time}
+    (h : pull db now sn mx mb strict wait obs = .ok (o, now')) (hwait : 0 ≤ wait)
+    (hinv : Inv2 db now)
+    (huniq : ∀ a ∈ db.subs, ∀ b ∈ db.subs, a.live = true → b.live = true → a.id = b.id → a = b) :
+    Inv2 o.db now' := by
+  obtain ⟨s, hs, hcase⟩ := pull_ok_shape2 h
+  obtain ⟨hsm, hslive⟩ := liveSubByName_mem hs
+  -- the expiry refreshes, as one rewrite of the subscriptions table
+  have refresh2 : ∀ (t1 t2 : Time) (now2 : Time), now ≤ now2 →
+      Inv2 (refreshExpiry (refreshExpiry db s t1) s t2) now2 := by
+    intro t1 t2 now2 hn
+    refine hinv.step (stepOk2_of_maps db now _ now2 id
+      (fun x => (fun y => if (y.id == s.id) = true then { y with expiresAt := t2 + s.ttl } else y)
+        ((fun y => if (y.id == s.id) = true then { y with expiresAt := t1 + s.ttl } else y) x))
+      hn (by simp [refreshExpiry]) ?_ ?_ ?_)
+    · simp only [refreshExpiry, updateWhere, List.map_map]; rfl
+    · intro x _
+      obtain ⟨a1, a2, a3, a4⟩ := refreshGs s t1 x
+      obtain ⟨b1, b2, b3, b4⟩ := refreshGs s t2 (if (x.id == s.id) = true then { x with expiresAt := t1 + s.ttl } else x)
+      exact ⟨b1.trans a1, b2.trans a2, b3.trans a3, b4.trans a4⟩
+    · intro d _
+      exact rowUpdOk_refl db now _ (by simp [refreshExpiry]) d
+  rcases hcase with ⟨hn, hdb⟩ | ⟨hn, cands, acc, hnd, hc, hloop, hdb⟩
+  · rw [hn, hdb]
+    exact refresh2 now (now + wait) (now + wait) (by unfold Time at *; omega)
+  · rw [hn, hdb]
+    have hinv0 := refresh2 now now now (Int.le_refl _)
+    have hdels0 : (refreshExpiry (refreshExpiry db s now) s now).dels = db.dels := rfl
+    have hsubs0 : (refreshExpiry (refreshExpiry db s now) s now).subs = db.subs.map
+        (fun x => (fun y => if (y.id == s.id) = true then { y with expiresAt := now + s.ttl } else y)
+          ((fun y => if (y.id == s.id) = true then { y with expiresAt := now + s.ttl } else y) x)) := by
+      simp only [refreshExpiry, updateWhere, List.map_map]; rfl
+    have hgs : ∀ x : Sub, ((fun y : Sub => if (y.id == s.id) = true then { y with expiresAt := now + s.ttl } else y)
+          ((fun y : Sub => if (y.id == s.id) = true then { y with expiresAt := now + s.ttl } else y) x)).id = x.id ∧
+        ((fun y : Sub => if (y.id == s.id) = true then { y with expiresAt := now + s.ttl } else y)
+          ((fun y : Sub => if (y.id == s.id) = true then { y with expiresAt := now + s.ttl } else y) x)).live = x.live ∧
+        ((fun y : Sub => if (y.id == s.id) = true then { y with expiresAt := now + s.ttl } else y)
+          ((fun y : Sub => if (y.id == s.id) = true then { y with expiresAt := now + s.ttl } else y) x)).ordered = x.ordered := by
+      intro x
+      obtain ⟨a1, a2, a3, _⟩ := refreshGs s now x
+      obtain ⟨b1, b2, b3, _⟩ := refreshGs s now (if (x.id == s.id) = true then { x with expiresAt := now + s.ttl } else x)
+      exact ⟨b1.trans a1, b2.trans a2, b3.trans a3⟩
+    have huniq0 : ∀ a ∈ (refreshExpiry (refreshExpiry db s now) s now).subs, ∀ b ∈ (refreshExpiry (refreshExpiry db s now) s now).subs,
+        a.live = true → b.live = true → a.id = b.id → a = b := by
+      rw [hsubs0]
+      intro a ha b hb hla hlb hid
+      obtain ⟨a0, ha0, rfl⟩ := List.mem_map.mp ha
+      obtain ⟨b0, hb0, rfl⟩ := List.mem_map.mp hb
+      have := huniq a0 ha0 b0 hb0 (by rw [← (hgs a0).2.1]; exact hla) (by rw [← (hgs b0).2.1]; exact hlb)
+        (by rw [← (hgs a0).1, ← (hgs b0).1]; exact hid)
+      rw [this]
+    have hfind : ∀ c ∈ cands, findDel (refreshExpiry (refreshExpiry db s now) s now).dels c.id = some c := by
+      intro c hcm
+      rw [hdels0]
+      exact find?_of_nodup_mem (·.id) db.dels c hinv.uniq (hc c hcm).1
+    have hinv1 := pullLoop_inv2 s now mb strict obs cands 0 _ acc hloop hinv0 huniq0 hnd hfind
+    obtain ⟨hmono, hother⟩ := pullLoop_rel rowRel_mono s now mb strict obs cands 0 _ acc hloop
+    have hdel := pullLoop_delivered s now mb strict obs cands 0 _ acc hloop
+    obtain ⟨hkeep, _⟩ := pullLoop_keeps s now mb strict obs cands 0 _ acc hloop (by simpa using hnd)
+      (fun x hx => by cases hx) hfind
+    -- the leases
+    refine hinv1.step (stepOk2_of_map acc.db now _ now (applyLease now acc.delivered) (Int.le_refl _)
+      (by simp [applyLeases]) rfl ?_)
+    intro d hd
+    unfold applyLease
+    split
+    · rename_i c δ hfind2
+      have hcm := List.mem_of_find?_eq_some hfind2
+      have hcid : c.id = d.id := by simpa using List.find?_some hfind2
+      have hcin : c ∈ cands := by
+        rcases hdel (c, δ) hcm with h0 | h0
+        · cases h0
+        · exact h0
+      have hcacc : c ∈ acc.db.dels := List.mem_of_find?_eq_some (hkeep (c, δ) hcm)
+      have hcd : c = d := eq_of_nodup_ids hinv1.uniq hcacc hd hcid
+      subst hcd
+      refine rowUpdOk_lease acc.db now _ rfl c δ ?_
+      intro hlo _
+      right
+      obtain ⟨_, hcel⟩ := hc c hcin
+      unfold Db.eligible at hcel
+      simp only [Bool.and_eq_true, Bool.or_eq_true, Bool.not_eq_true', beq_iff_eq] at hcel
+      -- the pulled subscription is the live ordered one the row belongs to
+      obtain ⟨s', hs', hid', hl', ho'⟩ := (liveOrd_iff acc.db c.subId).mp hlo
+      have hs'' : s' ∈ (refreshExpiry (refreshExpiry db s now) s now).subs := by
+        have := hother.2.1
+        rw [this] at hs'; exact hs'
+      rw [hsubs0] at hs''
+      obtain ⟨s0, hs0, rfl⟩ := List.mem_map.mp hs''
+      have hs0s : s0 = s := huniq s0 hs0 s hsm (by rw [← (hgs s0).2.1]; exact hl') hslive
+        (by rw [← (hgs s0).1]; exact hid'.trans hcel.1.1.1)
+      subst hs0s
+      have hord : s0.ordered = true := by rw [← (hgs s0).2.2]; exact ho'
+      rcases hcel.2 with h1 | h1
+      · rw [hord] at h1; cases h1
+      · have h2 : (refreshExpiry (refreshExpiry db s0 now) s0 now).predDone now c = true := by
+          simpa [Db.predDone, Db.delById, refreshExpiry] using h1
+        exact predDone_mono hmono now c h2
+    · exact rowUpdOk_refl acc.db now _ rfl d
+
+/-! ### a nack — dead-lettering included — keeps the ordering invariant -/
+
+theorem perm_insertById (d : Delivery) : ∀ l : List Delivery, (insertById d l).Perm (d :: l)
+  | [] => List.Perm.refl _
+  | e :: r => by
+    unfold insertById
+    split
+    · exact List.Perm.refl _
+    · exact ((perm_insertById d r).cons e).trans (List.Perm.swap d e r)
+
+theorem perm_sortById : ∀ l : List Delivery, (sortById l).Perm l
+  | [] => List.Perm.refl _
+  | d :: r => by
+    show (insertById d (sortById r)).Perm (d :: r)
+    exact (perm_insertById d (sortById r)).trans ((perm_sortById r).cons d)
+
+/-- the loop of a nack keeps the ordering invariant: a row whose attempts are used up is dead-lettered,
+    the others only get a new attempt time -/
+theorem nackLoop_inv2 (now : Time) (delays : List (Id × Int)) (fwds : List (Id × List Fwd)) :
+    ∀ (rows : List Delivery) (acc acc' : NackAcc),
+      nackLoop now delays fwds rows acc = .ok acc' →
+      Inv2 acc.db now →
+      (∀ a ∈ acc.db.subs, ∀ b ∈ acc.db.subs, a.live = true → b.live = true → a.id = b.id → a = b) →
+      (rows.map (·.id)).Nodup →
+      (∀ c ∈ rows, findDel acc.db.dels c.id = some c) →
+      Inv2 acc'.db now := by
+  intro rows
+  induction rows with
+  | nil =>
+    intro acc acc' h hinv _ _ _
+    unfold nackLoop at h
+    injection h with h; subst h; exact hinv
+  | cons d r ih =>
+    intro acc acc' h hinv huniq hnd hc
+    simp only [List.map_cons, List.nodup_cons] at hnd
+    have hcr : ∀ c ∈ r, findDel acc.db.dels c.id = some c := fun c hcm => hc c (List.mem_cons_of_mem _ hcm)
+    have hne : ∀ c ∈ r, d.id ≠ c.id := fun c hcm heq => hnd.1 (List.mem_map.mpr ⟨c, hcm, heq.symm⟩)
+    unfold nackLoop at h
+    split at h
+    · cases h
+    · rename_i s _
+      split at h
+      · rename_i dlt hdlt
+        split at h
+        · cases h
+        · rename_i db' w hdl
+          have hdm : d ∈ acc.db.dels := List.mem_of_find?_eq_some (hc d (List.mem_cons_self ..))
+          have hinv1 := C05_deadLetter_keeps_order hdl hinv huniq hdm (dlTarget_attempts hdlt)
+          have hsame := deadLetter_other hdl
+          refine ih _ _ h hinv1 (by rw [hsame.2.1]; exact huniq) hnd.2 ?_
+          intro c hcm
+          exact deadLetter_keeps hdl (hne c hcm) (hcr c hcm)
+      · split at h
+        · cases h
+        · rename_i δ _
+          have hok : stepOk2 acc.db now { acc.db with dels := setAttemptAt d.id (now + δ) acc.db.dels } now = true := by
+            refine stepOk2_of_map acc.db now _ now (fun x => if (x.id == d.id) = true then { x with attemptAt := now + δ } else x)
+              (Int.le_refl _) ?_ rfl ?_
+            · simp only [setAttemptAt, updateWhere]
+            · intro x _
+              split
+              · exact rowUpdOk_attemptAt acc.db now _ rfl x _
+              · exact rowUpdOk_refl acc.db now _ rfl x
+          refine ih _ _ h (hinv.step hok) huniq hnd.2 ?_
+          intro c hcm
+          show findDel (setAttemptAt d.id (now + δ) acc.db.dels) c.id = some c
+          unfold setAttemptAt
+          have hp : ∀ x : Delivery, x.id = c.id → (fun y : Delivery => y.id == d.id) x = false := by
+            intro x hx
+            have : x.id ≠ d.id := by rw [hx]; exact fun h0 => hne c hcm h0.symm
+            simpa using this
+          rw [findDel_updateWhere_ne acc.db.dels (fun y => y.id == d.id) (fun y => { y with attemptAt := now + δ }) c.id
+            (fun _ => rfl) hp]
+          exact hcr c hcm
+
+/-- **a nack keeps the ordering invariant** — on any topology, with no clock assumption: of the rows it
+    names, those whose attempts are used up are dead-lettered (any number of them, in one transaction,
+    at one instant), the others are rescheduled -/
+theorem C05_nack_keeps_order {db : Db} {now : Time} {ids : List Id} {delays : List (Id × Int)}
+    {fwds : List (Id × List Fwd)} {o : TxOut (Nat × Nat)}
+    (h : nack db now ids delays fwds = .ok o) (hinv : Inv2 db now)
+    (huniq : ∀ a ∈ db.subs, ∀ b ∈ db.subs, a.live = true → b.live = true → a.id = b.id → a = b) :
+    Inv2 o.db now := by
+  unfold nack at h
+  simp only at h
+  split at h
+  · cases h
+  · rename_i acc hloop
+    injection h with h; subst h
+    have hperm := perm_sortById (db.dels.filter fun d => ids.contains d.id && d.isOpen now)
+    refine nackLoop_inv2 now delays fwds _ _ acc hloop hinv huniq ?_ ?_
+    · refine ((hperm.map (·.id)).nodup_iff).mpr ?_
+      exact List.Nodup.sublist (List.Sublist.map _ List.filter_sublist) hinv.uniq
+    · intro c hcm
+      have hcf := (hperm.mem_iff).mp hcm
+      exact find?_of_nodup_mem (·.id) db.dels c hinv.uniq (List.mem_filter.mp hcf).1
 
 end deadletter2
 
